@@ -15,11 +15,9 @@
 (*     own; optionally one adjacent blank line is eaten / added (pep8space,   *)
 (*     '+N' / '-N')                                                           *)
 (*   insert at i : a new line right after the previous statement              *)
-(* Invariants: Accept - every reference edit satisfies every clause;          *)
-(* Reject - every damaged result is rejected by the clause the property names *)
-(* for that kind of damage.  Tokens and lines are hash-consed integers as in  *)
-(* the recorded traces; the facts handed to TokenLaws are computed here by a  *)
-(* small tokenizer of the line model.                                         *)
+(* Tokens and lines are hash-consed integers as in the recorded traces; the    *)
+(* facts handed to TokenLaws (CaseOf) are computed here by a small tokenizer   *)
+(* of the line model.                                                          *)
 EXTENDS Integers, Sequences, FiniteSets, TLC
 
 CONSTANTS NStmt,       \* number of statements
